@@ -60,7 +60,7 @@ for sid,m,rs in s:
     own=any(v=='DETECTED' and prop==sid.split('-')[0] for prop,tier,v,t,sg in rs)
     nown+=own
     out.append("| %s | %s | %s | `%s` |" % (sid,summ,'; '.join(cell) or 'not run',sig))
-out.append("\n%d seeded changes, %d of them obsolete after a fix of a genuine defect; of the remaining %d, %d are detected by their own property's quick check and %d by at least one registered quick check (C10-1 by C08; C03-r5, which does not violate C03 as stated, by C12 and C13)." % (len(s),nobs,len(s)-nobs,nown,nd))
+out.append("\n%d seeded changes, %d of them obsolete after a fix of a genuine defect; of the remaining %d, %d are detected by their own property's quick check and %d by at least one registered quick check (C03-r5, which does not violate C03 as stated, by C12 and C13; C10-1, long missed by C10 itself, is now caught by it as well as by C08)." % (len(s),nobs,len(s)-nobs,nown,nd))
 txt='\n'.join(out)
 p=V+'/DESIGN.md'
 d=open(p).read()
